@@ -55,7 +55,7 @@ def conflict(c1, c2):
 def build(r, name, derives, n=None, styles=True, allow_default=True, allow_disabled=True, allow_aci=True,
           allow_prefix=False, fieldless=False, generics_pool=(None, None, None, "T", "a", "aT", "N", "Tw"),
           distinct_lengths=False, uni=True, naming_bias=0.6, max_n=9, capture_types=None, allow_default_with=True,
-          forced_style="__unset__", dup_within_variant=True, allow_braces=False, allow_disabled_default=False, avoid_snake_collisions=False):
+          forced_style="__unset__", dup_within_variant=True, allow_braces=False, allow_disabled_default=False, avoid_snake_collisions=False, raw_bare=False):
     """Random string enum inside the domain of C01 (non-overlapping spellings)."""
     if n is None:
         n = r.choice([0, 1, 2, 3, 3, 4, 5, 6, 7, max_n])
@@ -156,6 +156,12 @@ def build(r, name, derives, n=None, styles=True, allow_default=True, allow_disab
             spec.variants.append(v)
             break
     gen.ensure_generics_used(r, spec)
+    rv = gen.rawify(r, spec, explicit_names=not raw_bare, prob=0.08)
+    if rv is not None and model.overlaps(spec):
+        rv.ident = "RawFallback"
+        rv.to_string = None if rv.to_string and rv.to_string.startswith("raw-") else rv.to_string
+        if model.overlaps(spec):
+            rv.to_string = "raw-fallback-name"
     assert not model.overlaps(spec)
     return spec
 
